@@ -2,6 +2,8 @@
 """C10 -- every outcome is a well-formed, serialisable response; failures stay
 contained."""
 import asyncio
+import collections
+import collections.abc
 import json
 import math
 
@@ -113,6 +115,24 @@ def corpus():
             c = _resp_case(sn, text, {}, variables, None, G.CONFIGS[i], "multi-node-invalid")
             c["as_document"] = asdoc
             out.append(c)
+    # extensions handed over as Mappings that are not plain dicts (seeded C10-g): every kind at a root
+    # field, a nested field and below a list item
+    for i, (sn, text, w) in enumerate(G.MAPPING_CORPUS):
+        for cfg in G.CONFIGS:
+            out.append(_resp_case(sn, text, w, config=cfg, label="mapping-extensions"))
+    # history: one shared error instance raised in two consecutive requests, the caller editing the first
+    # rendered response in between: the second response shows the extensions as the resolver gave them
+    for i, kind in enumerate(["dict", "ordered", "ordered_sub", "chain", "proxy", "custom"]):
+        act = ["raise_map", "shared " + kind, G.MAP_CONTENT, kind, True]
+        c = _resp_case("A", "{ a o { a } }", {"a": act, "o/a": act}, config=G.CONFIGS[i % 4],
+                       label="mapping-extensions-history")
+        c["prelude"] = [["{ s a }", {"a": act}, "mutate"], ["{ o { a } }", {"o/a": act}, "mutate"]]
+        out.append(c)
+    shared_plain = ["raise_shared", "not found", {"code": 404, "hint": "x"}]
+    for cfg in G.CONFIGS:
+        c = _resp_case("A", "{ a }", {"a": shared_plain}, config=cfg, label="mapping-extensions-history")
+        c["prelude"] = [["{ a s }", {"a": shared_plain}, "mutate"]]
+        out.append(c)
     # one ResolverError instance raised in an earlier, longer request and again in this one
     long_doc = "{\n  s\n  b\n  o {\n           a\n  }\n}"
     shared = ["raise_shared", "not found", {"code": 404}]
@@ -302,6 +322,26 @@ def _same(a, b):
     return a == b
 
 
+_PLAIN_TYPES = (dict, collections.OrderedDict, list, str, int, float, bool, type(None))
+
+
+def _non_plain(v, where):
+    """response() must be plain data all the way down: exactly dict (or the OrderedDict the executor
+    builds), list, str, int, float, bool, None"""
+    if type(v) not in _PLAIN_TYPES:
+        return ["%s: %s" % (where, type(v).__name__)]
+    out = []
+    if isinstance(v, dict):
+        for k, x in v.items():
+            if type(k) is not str:
+                out.append("%s: key %r" % (where, k))
+            out.extend(_non_plain(x, "%s.%s" % (where, k)))
+    elif isinstance(v, list):
+        for i, x in enumerate(v):
+            out.extend(_non_plain(x, "%s[%d]" % (where, i)))
+    return out
+
+
 def _plain(v):
     """OrderedDict -> dict (recursively); everything else untouched"""
     if isinstance(v, dict):
@@ -459,14 +499,27 @@ def run_impl(case):
     # every case starts from fresh shared exception instances; earlier requests of the same
     # "session" (prelude) are replayed first so that what they leave behind is part of the case
     G._SHARED.clear()
-    for ptext, pworld in case.get("prelude", []):
+    for entry in case.get("prelude", []):
+        ptext, pworld = entry[0], entry[1]
         try:
-            _run_entry(schema, dict(case, text=ptext, world=pworld, variables={}, operation_name=None),
-                       {"world": pworld, "raised": [], "floats": []})
+            pres = _run_entry(schema, dict(case, text=ptext, world=pworld, variables={}, operation_name=None),
+                              {"world": pworld, "raised": [], "floats": []})
+            if len(entry) > 2 and entry[2] == "mutate":
+                # the caller edits the response it was given (drops a key, stamps a request id)
+                rendered = pres.response()
+                for e in rendered.get("errors", []):
+                    ext = e.get("extensions")
+                    try:
+                        for k in list(ext)[:1]:
+                            ext.pop(k)
+                        ext["request_id"] = "r-1"
+                    except Exception:  # noqa  (read-only or absent)
+                        pass
+                    e["message"] = "edited by the caller"
         except Exception:  # noqa
             pass
     stages, doc, op = _stage_verdicts(schema, case)
-    ctx = {"world": case["world"], "raised": [], "floats": [], "raised_ext": []}
+    ctx = {"world": case["world"], "raised": [], "floats": [], "raised_ext": [], "mappings": []}
     obs = {"stages": stages}
     try:
         result = _run_entry(schema, case, ctx)
@@ -486,6 +539,7 @@ def run_impl(case):
     except Exception as e:  # noqa
         obs.update(kind="raised", cls=type(e).__name__, msg="response(): " + str(e)[:300])
         return obs
+    obs["non_plain"] = _non_plain(resp, "response")[:5]
     try:
         text = json.dumps(resp, allow_nan=False)
     except (ValueError, TypeError) as e:
@@ -516,6 +570,14 @@ def run_impl(case):
             obligated.append(p)
     obs["obligated"] = obligated
     obs["untyped_nulls"] = unknown
+    # the resolver's side edits the mappings it handed to ResolverError after the response was rendered:
+    # the rendered response must not change
+    for m in ctx.get("mappings", []):
+        try:
+            m["__late__"] = "edited after rendering"
+        except Exception:  # noqa  read-only mapping
+            pass
+    obs["rendered_changed"] = not _same(_plain(resp), back)
     return obs
 
 
@@ -658,6 +720,11 @@ def direct_checks(case, obs):
                 if n != 1:
                     out.append(("null at %s (non-nullable position or failed field) has %d errors with that path"
                                 % (pth, n), None))
+    for w in obs.get("non_plain", []):
+        out.append(("response() is not plain dict/list/str/int/float/bool/None data: %s" % w, None))
+    if obs.get("rendered_changed"):
+        out.append(("a response already rendered changed when the mapping handed to ResolverError was edited "
+                    "afterwards (extensions are aliased, not copied)", None))
     for where, val in obs.get("nonfinite_args", []):
         out.append(("Float input coercion handed the non-finite number %s to the resolver at %s" % (val, where), None))
     if case.get("expect") and _stage_name(obs) not in case["expect"]:
